@@ -46,3 +46,11 @@ W double w_bilin(const S2 *a, const S1 *b) { return BilinearForm{X<1>{}}(*a, *b)
 W double w_scalarprod(const S2 *a, const S1 *b) { return ScalarProduct{}(*a, *b); }
 W double w_linform(const S2 *a) { return LinearForm{Dx<1>{}}(*a); }
 W void w_generate1(void *mem, const Gen *g) { new (mem) std::vector<S1>(g->generateBSplines<1>()); }
+
+#ifdef NATIVE_SHIM
+// native-only helpers: a really constructed generator, whose bytes give the initial values of members the harness does not know
+extern "C" {
+size_t n_sizeof_generator() { return sizeof(Gen); }
+const void *n_mk_generator(const double *k, size_t n) { try { return new Gen(std::vector<double>(k, k + n)); } catch (...) { return nullptr; } }
+}
+#endif
